@@ -103,6 +103,7 @@ ALL_POL = ["survive", "seek", "random", "seek_noisy", "mostly_masked"]
 class Adapter(EnvAdapter):
     name = "Maze"
     props = ("C01", "C03", "C04", "C05", "C07", "C09", "C10", "C11", "C12")
+    gen_heavy = {'r2x2_t3': (60, 400), 'r4x5_t1': (60, 400), 'r3x7_t7': (40, 200)}
 
     def configs(self, tier):
         # time-limit sweep ("for every value passed", C11): one surviving episode per value, no probes
